@@ -3,10 +3,10 @@ C13: lib/internal/racdict — the dictionary the compressor is given (`Saver.Com
 the file (`Saver.WrapResource`) and the dictionary the reader hands to the decompressor (`Loader.Load`) are the
 same bytes.  Core Lean only.
 -/
-import WuffsVerif.Model.Rac.Dict
+import WuffsVerif.Model.Rac.DictSaver
 import WuffsVerif.Proof.RacBytes
 
-namespace WuffsVerif.Rac.Dict
+namespace WuffsVerif.Rac.DictW
 open WuffsVerif.Rac
 
 theorem putU32LE_length (v : Nat) : (putU32LE v).length = 4 := rfl
@@ -158,4 +158,4 @@ theorem saverCompress_spec (compress : Bytes → Bytes → Bytes → Except DErr
           rw [if_neg (by omega)]
         exact ⟨_, hw, fun extra => load_wrapResource refine _ _ hw extra⟩
 
-end WuffsVerif.Rac.Dict
+end WuffsVerif.Rac.DictW
